@@ -45,6 +45,9 @@ def conventional_plus(r, idx):
     lk.field("name", 1, "string", required=True).field("region", 2, "string", required=True).field("limit", 3, "int32", required=True)
     lk.field("view", 4, "string")
     lkr = main.message("LookupThingResponse"); lkr.field("found", 1, "bool")
+    # a body message reaching a repeated google.protobuf.Any before a singular one (google.rpc.Status.details), a Struct, a FieldMask
+    main.dep("google/rpc/status.proto"); main.dep("google/protobuf/struct.proto"); main.dep("google/protobuf/field_mask.proto")
+    lkr.field("last_status", 2, ".google.rpc.Status").field("labels", 3, ".google.protobuf.Struct").field("mask", 4, ".google.protobuf.FieldMask")
     svc.rpc("LookupThing", lk.fqn, lkr.fqn, http=("get", "/v1/{name=things/*}:lookup"), sigs=["name,region"])
     mk = main.message("MakeThingRequest")
     mk.field("parent", 1, "string", required=True).field("thing", 2, lkr.fqn, required=True).field("thing_id", 3, "string", required=True)
